@@ -297,9 +297,6 @@ def ensure_static_built(cid=None, targets=()):
     sources; (re)build if not.  `make` decides from timestamps."""
     subprocess.run([os.path.join(COQ, "mkproject.sh")], cwd=COQ, check=True, capture_output=True)
     tg = list(targets)
-    listed = open(os.path.join(COQ, "_CoqProject")).read().split()
-    if cid and ("Properties/%s.v" % cid) in listed:
-        tg.append("Properties/%s.vo" % cid)
     tg += ["FloatFun.vo"]
     p = subprocess.run(["timeout", "3000", "make", "-j%d" % NPROC] + tg, cwd=COQ, capture_output=True, text=True)
     if p.returncode != 0:
@@ -315,6 +312,12 @@ def check_property_file(cid):
         return True, [], "no property file"
     if ("Properties/%s.v" % cid) not in open(os.path.join(COQ, "_CoqProject")).read().split():
         return False, [], "property file exists but a Proofs file it imports is missing"
+    # dependencies (Proofs/*.vo) are brought up to date first; a proof that no longer
+    # checks is a broken obligation of this property, not a crash of the check
+    p = subprocess.run(["timeout", "3000", "make", "-j%d" % NPROC, "Properties/%s.vo" % cid], cwd=COQ,
+                       capture_output=True, text=True)
+    if p.returncode != 0:
+        return False, [], (p.stdout + p.stderr)[-3000:]
     rc, out, err = coqc(path, timeout=1200)
     if rc != 0:
         return False, [], (err or out)[-3000:]
